@@ -9,10 +9,12 @@
 (*         (mgp18 / mult18: MinGasPrice / MinGasMultiplier x 10^18, FeeDec)  *)
 (*   route "cosmos" | "eth"                                                  *)
 (*   cos   [gas, fee, hasFee, ext, maxPrio, amount]  the Cosmos MsgSend tx    *)
-(*   msgs  sequence of Ethereum messages [type, gas, gasPrice, cap, tip,      *)
-(*         value, prog, nz, z, alAddrs, alKeys, slots, twinGas,               *)
-(*         resp : [present, gasUsed, failed, outcome]]                        *)
-(*   pre, post  [sender, rcpt, collector]  bank balances around DeliverTx     *)
+(*   msgs  sequence of Ethereum messages [from, type, gas, gasPrice, cap,     *)
+(*         tip, value, prog, nz, z, alAddrs, alKeys, slots, twinGas,          *)
+(*         resp : [present, gasUsed, failed, outcome]]; every message is      *)
+(*         signed by its own sender `from` (one of the accounts a1, a2, a3)   *)
+(*   pre, post  [a1, a2, a3, rcpt, collector]  bank balances around DeliverTx *)
+(*         (the Cosmos transaction is sent by a1; rcpt receives transfers)    *)
 (*   res   [code, gasUsed, gasWanted]                                         *)
 (* All amounts are decimal strings (BigNum).                                  *)
 (*                                                                         *)
@@ -66,6 +68,11 @@ ClampLo(e, m) == DecMulFloor(e.par.mult18, m.gas)
 ClampHi(e, m) == DecMulCeil(e.par.mult18, m.gas)
 
 Accepted(e) == e.res.code = 0
+\* the accounts that may sign messages; all of them are observed in every event
+Senders == {"a1", "a2", "a3"}
+CosmosSender == "a1"
+MsgsOf(e, a) == {i \in Idx(e.msgs) : e.msgs[i].from = a}
+SumOver(S, f(_)) == FoldSet(LAMBDA i, acc : BigAdd(acc, f(i)), "0", S)
 Delta(e, who) == BigSub(e.post[who], e.pre[who])
 
 ---------------------------------------------------------------------------
@@ -80,7 +87,9 @@ RECURSIVE JoinOutcomes(_)
 JoinOutcomes(ms) == IF Len(ms) = 0 THEN "-" ELSE IF Len(ms) = 1 THEN ms[1].resp.outcome
                     ELSE ms[1].resp.outcome \o "+" \o JoinOutcomes(Tail(ms))
 TxType(e)  == IF Len(e.msgs) = 1 THEN e.msgs[1].type ELSE "multi"
+NumSenders(e) == Cardinality({e.msgs[i].from : i \in Idx(e.msgs)})
 TxClass(e) == "type=" \o TxType(e) \o ",outcome=" \o JoinOutcomes(e.msgs)
+              \o (IF NumSenders(e) > 1 THEN ",senders=" \o ToString(NumSenders(e)) ELSE "")
 MsgClass(e, i) == "type=" \o e.msgs[i].type \o ",outcome=" \o e.msgs[i].resp.outcome
                   \o (IF Len(e.msgs) > 1 THEN ",msgs=" \o ToString(Len(e.msgs)) ELSE "")
 
@@ -105,16 +114,23 @@ PViolEthMsg(e, i) ==
          THEN {V("gasUsed-clamp", MsgClass(e, i))} ELSE {})
    \cup (IF m.resp.present /\ BigLT(m.gas, m.resp.gasUsed) THEN {V("gasUsed-exceeds-limit", MsgClass(e, i))} ELSE {})
 
-\* (b) money: the sender's net payment is gasUsed x effectivePrice (plus the value of the messages
-\*     that succeeded), the collector receives exactly gasUsed x effectivePrice - per message
-\*     amounts summed over the transaction, because balances are observed around the transaction
+\* (b) money, per sender: every sender's net payment is exactly the sum over ITS OWN messages of
+\*     gasUsed x effectivePrice (plus the value of those that succeeded); the collector receives
+\*     exactly the sum over all messages; nobody else's balance moves (an observed account that sent
+\*     nothing keeps its balance, the recipient of the scripted transfers gets exactly their value).
+\*     Balances are observed around the transaction, so messages of one sender are judged in sum.
 Executed(e) == \A i \in Idx(e.msgs) : e.msgs[i].resp.present
-Pay(e)      == SumIdx(e.msgs, LAMBDA i : BigMul(e.msgs[i].resp.gasUsed, EffPrice(e, e.msgs[i])))
-ValueOut(e) == SumIdx(e.msgs, LAMBDA i : IF e.msgs[i].resp.failed THEN "0" ELSE e.msgs[i].value)
+PayOf(e, i)   == BigMul(e.msgs[i].resp.gasUsed, EffPrice(e, e.msgs[i]))
+ValueOf(e, i) == IF e.msgs[i].resp.failed THEN "0" ELSE e.msgs[i].value
+Pay(e)      == SumIdx(e.msgs, LAMBDA i : PayOf(e, i))
 GasSum(e)   == SumIdx(e.msgs, LAMBDA i : e.msgs[i].resp.gasUsed)
+OwnCost(e, a) == SumOver(MsgsOf(e, a), LAMBDA i : BigAdd(PayOf(e, i), ValueOf(e, i)))
+ToRcpt(e)   == SumIdx(e.msgs, LAMBDA i : IF e.msgs[i].prog \in {"transfer", "calldata"} THEN ValueOf(e, i) ELSE "0")
 PViolEthTotals(e) ==
     IF ~Executed(e) THEN {}
-    ELSE (IF ~BigEq(Delta(e, "sender"), BigNeg(BigAdd(Pay(e), ValueOut(e)))) THEN {V("sender-payment", TxClass(e))} ELSE {})
+    ELSE UNION {IF BigEq(Delta(e, a), BigNeg(OwnCost(e, a))) THEN {}
+                ELSE IF MsgsOf(e, a) = {} THEN {V("bystander-balance", TxClass(e))} ELSE {V("sender-payment", TxClass(e))} : a \in Senders}
+    \cup (IF ~BigEq(Delta(e, "rcpt"), ToRcpt(e)) THEN {V("bystander-balance", TxClass(e))} ELSE {})
     \cup (IF ~BigEq(Delta(e, "collector"), Pay(e)) THEN {V("collector-amount", TxClass(e))} ELSE {})
     \cup (IF ~BigEq(e.res.gasUsed, GasSum(e)) THEN {V("tx-gasUsed", TxClass(e))} ELSE {})
 
@@ -158,17 +174,17 @@ MCosmos(e) ==
         effFee   == BigMul(BigMin(BigAdd(base, prio), feeCap), c.gas)
         \* the intended design holds the charged fee to the floor as the Ethereum route does
         heldRej  == "cosmos_dynfee_below_floor" \notin Defects /\ ~MeetsFloor(BigAdd(effFee, c.gas), e, c.gas)
-        balRej   == BigLT(e.pre.sender, BigAdd(effFee, c.amount))
+        balRej   == BigLT(e.pre[CosmosSender], BigAdd(effFee, c.amount))
         ok       == ~(floorRej \/ gasRej \/ capRej \/ heldRej \/ balRej)
     IN [ok |-> ok, used |-> <<>>, failed |-> <<>>, txGas |-> "-1",
-        post |-> IF ok THEN [sender    |-> BigSub(e.pre.sender, BigAdd(effFee, c.amount)),
-                             rcpt      |-> BigAdd(e.pre.rcpt, c.amount),
-                             collector |-> BigAdd(e.pre.collector, effFee)]
+        post |-> IF ok THEN [e.pre EXCEPT ![CosmosSender] = BigSub(@, BigAdd(effFee, c.amount)),
+                                          !.rcpt          = BigAdd(@, c.amount),
+                                          !.collector     = BigAdd(@, effFee)]
                  ELSE e.pre]
 
 \* app/ante/evm: EthMinGasPriceDecorator (effective fee >= minGasPrice x gas), CanTransfer and
 \* VerifyFee (cap >= baseFee), EthGasConsumeDecorator (deducts effectivePrice x gasLimit per
-\* message into the fee collector; total gas <= block gas limit); then per message
+\* message, from that message's own sender, into the fee collector; total gas <= block gas limit); then per message
 \* state_transition.go: intrinsic gas, execution, gasUsed = max(evmGas, floor(mult x gasLimit)),
 \* RefundGas: (gasLimit - gasUsed) x effectivePrice from the fee collector back to the sender.
 \* A message failing with a consensus error (gas limit below intrinsic gas) fails the transaction
@@ -182,23 +198,26 @@ MEth(e) ==
         gasSum   == SumIdx(ms, LAMBDA i : ms[i].gas)
         blockRej == BigLT(e.par.maxGas, gasSum)
         upfront  == SumIdx(ms, LAMBDA i : FloorFee(e, ms[i]))
-        balRej   == BigLT(e.pre.sender, BigAdd(upfront, SumIdx(ms, LAMBDA i : ms[i].value)))
+        upOf(a)  == SumOver(MsgsOf(e, a), LAMBDA i : FloorFee(e, ms[i]))
+        balRej   == \E a \in Senders : BigLT(e.pre[a], BigAdd(upOf(a), SumOver(MsgsOf(e, a), LAMBDA i : ms[i].value)))
         anteOK   == ~(floorRej \/ tipRej \/ capRej \/ blockRej \/ balRej)
         execErr  == \E i \in Idx(ms) : BigLT(ms[i].gas, Intrinsic(ms[i]))
         used     == [i \in Idx(ms) |-> BigMax(ClampLo(e, ms[i]), MEvm(ms[i]).gas)]
         failed   == [i \in Idx(ms) |-> MEvm(ms[i]).failed]
         pay      == SumIdx(ms, LAMBDA i : BigMul(used[i], EffPrice(e, ms[i])))
-        vals     == SumIdx(ms, LAMBDA i : IF failed[i] THEN "0" ELSE ms[i].value)
+        costOf(a) == SumOver(MsgsOf(e, a), LAMBDA i : BigAdd(BigMul(used[i], EffPrice(e, ms[i])), IF failed[i] THEN "0" ELSE ms[i].value))
         toRcpt   == SumIdx(ms, LAMBDA i : IF ~failed[i] /\ ms[i].prog \in {"transfer", "calldata"} THEN ms[i].value ELSE "0")
         zeros    == [i \in Idx(ms) |-> "0"]
         nofail   == [i \in Idx(ms) |-> FALSE]
     IN  IF ~anteOK THEN [ok |-> FALSE, post |-> e.pre, used |-> zeros, failed |-> nofail, txGas |-> "-1"]
         ELSE IF execErr THEN
              [ok |-> FALSE, used |-> zeros, failed |-> nofail, txGas |-> gasSum,
-              post |-> [sender |-> BigSub(e.pre.sender, upfront), rcpt |-> e.pre.rcpt, collector |-> BigAdd(e.pre.collector, upfront)]]
+              post |-> [a \in DOMAIN e.pre |-> IF a \in Senders THEN BigSub(e.pre[a], upOf(a))
+                                               ELSE IF a = "collector" THEN BigAdd(e.pre[a], upfront) ELSE e.pre[a]]]
         ELSE [ok |-> TRUE, used |-> used, failed |-> failed, txGas |-> SumIdx(ms, LAMBDA i : used[i]),
-              post |-> [sender |-> BigSub(e.pre.sender, BigAdd(pay, vals)), rcpt |-> BigAdd(e.pre.rcpt, toRcpt),
-                        collector |-> BigAdd(e.pre.collector, pay)]]
+              post |-> [a \in DOMAIN e.pre |-> IF a \in Senders THEN BigSub(e.pre[a], costOf(a))
+                                               ELSE IF a = "collector" THEN BigAdd(e.pre[a], pay)
+                                               ELSE IF a = "rcpt" THEN BigAdd(e.pre[a], toRcpt) ELSE e.pre[a]]]
 
 MResult(e) == IF e.route = "cosmos" THEN MCosmos(e) ELSE MEth(e)
 
